@@ -174,6 +174,8 @@ func c17Run(s *Shard) {
 		{"function": "expFromZero", "params": M{"alpha": 0.25, "multiplier": -1.0, "queryNumber": 2}},
 		{"function": "expFromZero", "params": M{"alpha": 0.4, "multiplier": 0.0, "queryNumber": 3}},
 		{"function": "expFromZero", "params": M{"alpha": 0.4, "queryNumber": 3}},
+		{"function": "expFromZero", "params": M{"alpha": 0.5, "multiplier": 1.0, "queryNumber": -2}}, // any parameters: f = e^-1 - 1 < 0
+		{"function": "expFromZero", "params": M{"alpha": -0.5, "multiplier": 2.0, "queryNumber": 2}},
 	}
 	bounds := []M{{}, {"allowedValuesRangeScaling": 1.0}, {"allowedValuesRangeScaling": 0.5}, {"allowedValuesRangeScaling": 2.0},
 		{"disallowNegativeValues": true}, {"allowedValuesRangeScaling": 0.5, "disallowNegativeValues": true}, {"allowedValuesRangeScaling": 2.0, "disallowNegativeValues": true}}
@@ -186,7 +188,7 @@ func c17Run(s *Shard) {
 	sampled := false
 	for _, method := range allMethods {
 		for _, subset := range []bool{false, true} {
-			for _, variant := range []int{0, 1, 2, 3, 4, 5} { // 0 observed range, 1 declared range, 2 negative values, 3 one criterion with a single value, 4 never-considered alternatives beyond both ends, 5 values with many decimals / at the 1e-9 scale
+			for _, variant := range []int{0, 1, 2, 3, 4, 5, 6} { // 0 observed range, 1 declared range, 2 negative values, 3 one criterion with a single value, 4 never-considered alternatives beyond both ends, 5 values with many decimals / at the 1e-9 scale
 				root := rootRequest(method, subset, variant == 1)
 				if variant == 2 {
 					root = negativeVariant(root) // c1 strictly negative for every known alternative
@@ -202,6 +204,12 @@ func c17Run(s *Shard) {
 				}
 				if variant == 4 {
 					root = wideVariant(root)
+				}
+				if variant == 6 {
+					if method == "choquetIntegral" {
+						continue
+					}
+					root = typelessVariant(root)
 				}
 				if variant == 5 {
 					root = tinyVariant(root) // c3 at the 1e-9 scale
